@@ -114,10 +114,16 @@ def gen_history(rnd, g, kind=""):
             events.append({"ev": "remove", "q": q})
         else:
             events.append({"ev": "clean"})
-    if rnd.random() < 0.35:
+    if rnd.random() < 0.6:
         # plain, then with extra parameters / an input value, then plain again: the middle one must leave no trace
         q = rnd.choice(fam)
-        mid = rnd.choice([{"extra": rnd.choice([["5"], {"y": "4"}, {"a": "w"}, {"nope": "1"}])}, {"input": rnd.randrange(len(E.INPUTS))}])
+        special = [x for x in fam if x.split("/")[-1] in ("attr_low", "attr_up", "ident")]
+        if special and rnd.random() < 0.6:
+            q = rnd.choice(special)
+        if rnd.random() < 0.5:
+            mid = {"extra": {"nope": "1"}}   # a keyword nobody consumes: the evaluation succeeds, volatile
+        else:
+            mid = rnd.choice([{"extra": rnd.choice([["5"], {"y": "4"}, {"a": "w"}])}, {"input": rnd.randrange(len(E.INPUTS))}])
         at = rnd.randrange(len(events) + 1)
         events[at:at] = [{"ev": "eval", "q": q}, dict({"ev": "eval", "q": q}, **mid), {"ev": "eval", "q": q}]
     return fam, events
